@@ -64,6 +64,9 @@ func (v *PointerSchema) process(ctx *p.SchemaCtx) {
 	if fn, ok := ctx.Data.(p.DpFactory); ok {
 		val, err := fn()
 		if err != nil {
+			if err.Dtype == "" {
+				err.Dtype = v.schema.getType()
+			}
 			ctx.AddIssue(subCtx.IssueFromUnknownError(err))
 			return
 		}
